@@ -1109,7 +1109,7 @@ def bounded(payload):
                     % (len(tpls), depth, NFORMS, len(LEAFSETS), stride, "/".join(pls["fortran"])),
             "bound": "<=4 statements, expression depth <=3, 12 variable names, values in 0..3, arrays of length 4, "
                      "2 logging functions",
-            "samples": samples, "failures": failures[:20], "known_hits": known_hits,
+            "samples": samples, "failures": sorted(failures, key=lambda f: bool(f["matches_fingerprints"]))[:20], "known_hits": known_hits,
             "parts": dict(parts), "exhaustive": False}
 
 
